@@ -22,6 +22,8 @@ THEOREMS = [
     'OpenHTF.AdbMux.c14_drained_stream_got_everything',
     'OpenHTF.AdbMux.c14_chunks',
     'OpenHTF.AdbMux.c14_one_wrte_in_flight',
+    'OpenHTF.AdbMux.c14_write_ack_is_expected',
+    'OpenHTF.AdbMux.late_expecting_flag_makes_the_ack_unexpected',
     'OpenHTF.AdbMux.c14_no_lost_wakeup',
     'OpenHTF.AdbMux.c14_notifier_can_move',
     'OpenHTF.AdbMux.old_protocol_loses_a_wakeup',
